@@ -27,6 +27,7 @@ pub fn one_case(m: &Model, origin: &str) -> Option<Case> {
     );
     let outside = m.spaces.iter().filter(|s| !s.inside_tenv).count();
     Some(Case {
+        post: String::new(),
         term,
         json: json!({"origin": origin, "model": serde_json::to_value(m).unwrap(),
                      "global": serde_json::to_value(g).unwrap(), "model_global_ventilation_rate": format!("{}", vent_model),
